@@ -40,9 +40,11 @@ def _default(node):
 
 def emit(src, site, mode):
     from py2lean import Unsupported
-    tree = src.tree(site["file"])
     rows = []
-    for n in tree.body:
+    bodies = []
+    for f in [site["file"]] + list(site.get("more_files", [])):
+        bodies += src.tree(f).body
+    for n in bodies:
         if not (isinstance(n, ast.ClassDef) and any(_is_dataclass(d) for d in n.decorator_list)):
             continue
         fields = []
